@@ -46,7 +46,9 @@ var creds = []string{"mapping-id", "right-secret", "wrong-secret", "resume-garba
 // what the persistent tier holds
 // two-node = two servers, each hybrid{node-local memory cache, shared Redis}: the server under test has read the
 // mapping record before ANOTHER node changes the mapping's state (revoke / expire / deactivate / delete)
-var backends = []string{"memory", "redis", "json", "two-node"}
+// json-restart = the stand-alone deployment with its periodic save: the state change meets a window of failing saves,
+// the disk recovers, and the server is restarted from its data file before the request arrives
+var backends = []string{"memory", "redis", "json", "two-node", "json-restart"}
 
 // "expired-seconds-ago": the expiry time passed two seconds before the request (the usual expired state is an hour past)
 var mstates = []string{"active", "revoked", "expired", "inactive", "missing", "expired-seconds-ago"}
@@ -205,16 +207,24 @@ func runCell(c Cell) (outcome, error) {
 		defer stAdmin.Close()
 	}
 	var jsonCache *memory.Storage
-	if c.Backend == "json" {
+	var jsPers *jsonstorage.Storage
+	var jsPath string
+	if c.Backend == "json" || c.Backend == "json-restart" {
 		dir, err := os.MkdirTemp("", "c04json")
 		if err != nil {
 			return out, err
 		}
 		defer os.RemoveAll(dir)
-		pers, err := jsonstorage.New(&jsonstorage.Config{FilePath: filepath.Join(dir, "data.json"), AutoSave: false})
+		jsPath = filepath.Join(dir, "data.json")
+		cfg := &jsonstorage.Config{FilePath: jsPath, AutoSave: false}
+		if c.Backend == "json-restart" {
+			cfg.AutoSave, cfg.SaveInterval = true, 2*time.Millisecond // the periodic save of the stand-alone deployment
+		}
+		pers, err := jsonstorage.New(cfg)
 		if err != nil {
 			return out, err
 		}
+		jsPers = pers
 		jsonCache = memory.New(context.Background())
 		hc := hybrid.DefaultConfig()
 		hc.EnablePersistent = true
@@ -336,6 +346,14 @@ func runCell(c Cell) (outcome, error) {
 			return out, fmt.Errorf("setup: node under test cannot read the mapping: %w", err)
 		}
 	}
+	jsBlocker := jsPath + ".tmp"
+	if c.Backend == "json-restart" {
+		// everything so far has reached the file; from here on the periodic save fails (its temp file cannot be
+		// written: full or read-only disk) ...
+		time.Sleep(8 * time.Millisecond)
+		os.Remove(jsBlocker)
+		os.Mkdir(jsBlocker, 0o755)
+	}
 	for attempt := 0; ; attempt++ {
 		cur, gerr := admin.Cloud.GetPortMapping(mp.ID)
 		if gerr != nil {
@@ -399,6 +417,35 @@ func runCell(c Cell) (outcome, error) {
 		if attempt >= 10 {
 			return out, fmt.Errorf("setup: mapping state %s not reflected after %d attempts", c.MState, attempt)
 		}
+	}
+	if c.Backend == "json-restart" {
+		// ... the state change above met failing saves; the disk recovers, nothing else is written, and the server is
+		// shut down and started again from its data file
+		time.Sleep(8 * time.Millisecond)
+		os.Remove(jsBlocker)
+		time.Sleep(8 * time.Millisecond)
+		if err := jsPers.Close(); err != nil {
+			return out, fmt.Errorf("setup: closing the JSON store: %w", err)
+		}
+		pers2, err := jsonstorage.New(&jsonstorage.Config{FilePath: jsPath, AutoSave: false})
+		if err != nil {
+			return out, err
+		}
+		hc := hybrid.DefaultConfig()
+		hc.EnablePersistent = true
+		st2 := hybrid.NewWithSharedCache(context.Background(), memory.New(context.Background()), nil, pers2, hc)
+		defer st2.Close()
+		srv2, err := miniserver.New(miniserver.Options{
+			Storage:    st2,
+			RoutingTTL: 30 * time.Second,
+			BruteForce: &security.BruteForceConfig{MaxFailures: 100000, TimeWindow: time.Hour, BanDuration: time.Hour, PermanentBanAt: 1000000, CleanupInterval: time.Hour},
+			IPRate:     &security.RateLimitConfig{Rate: 100000, Burst: 100000, TTL: time.Hour},
+		})
+		if err != nil {
+			return out, err
+		}
+		defer srv2.Close()
+		srv, admin, jsonCache = srv2, srv2, nil
 	}
 	if jsonCache != nil {
 		// the cache tier lets go of the mapping records (TTL expiry): the persistent tier decides
@@ -639,6 +686,9 @@ func TestMatrix(t *testing.T) {
 							if (be == "json" || be == "two-node") && ts != "none" && ts != "waiting" {
 								continue
 							}
+							if be == "json-restart" && (ts != "none" || cr == "resume-garbage" || cr == "nothing" || id == "none>L" || id == "failed") {
+								continue // tunnels do not survive a restart; a reduced identity x credential product
+							}
 							i++
 							if !vkit.Mine(i) {
 								continue
@@ -675,6 +725,9 @@ func TestRandomCells(t *testing.T) {
 		}
 		if c.ServerListened {
 			c.TState = "none" // nobody can legitimately open the source side of a server-listened mapping as a client
+		}
+		if c.Backend == "json-restart" {
+			c.TState = "none" // tunnels do not survive the restart
 		}
 		check(t, c)
 	})
